@@ -176,14 +176,13 @@ def addFuncG (guard : Bool) (args : List PVal) : R PVal :=
     let v ← goIndex args 1
     if args.length = 3 then do
       let a2 ← goIndex args 2
-      let (i, i1) ← assertNumParam a2
+      let (i, _) ← assertNumParam a2
       if guard && (i < 0 || i > xs.length) then .error (.err "Out of bounds access to list")
       else do
-        let ys := xs ++ [PVal.num 0 1]
-        let _ ← goSlice ys i1 ys.length          -- copy(argList[int(index+1):], argList[int(index):])
-        let _ ← goSlice ys i ys.length
-        let _ ← goIndex ys i                      -- argList[int(index)] = args[1]
-        .ok (.list (ys.set i.toNat v))
+        -- after 4ad50aa: a new list from argList[:int(index)], the value, argList[int(index):]
+        let left ← goSlice xs 0 i
+        let right ← goSlice xs i xs.length
+        .ok (.list (left ++ [v] ++ right))
     else .ok (.list (xs ++ [v]))
   else .error (.err "Need a list as first parameter and a value as second parameter")
 def addFunc := addFuncG true
